@@ -170,7 +170,8 @@ func (t *tr) elemHeapT(elemT types.Type, elemSort string) *Var {
 
 func (t *tr) mapHeaps(m *types.Map) (dom, val, ln *Var) {
 	ks, vs := t.V.W.sortOf(m.Key()), t.V.W.sortOf(m.Elem())
-	key := strings.Trim(ks, "|") + "$" + strings.Trim(vs, "|")
+	// keyed by the Go key and element types: maps of different types cannot alias
+	key := typeKey(m.Key()) + "$" + typeKey(m.Elem())
 	dom = t.newVar("MD$"+key, arrSort(SInt, arrSort(ks, SBool)), nil, true)
 	val = t.newVar("MV$"+key, arrSort(SInt, arrSort(ks, vs)), nil, true)
 	ln = t.newVar("ML$", arrSort(SInt, SInt), nil, true)
